@@ -181,6 +181,56 @@ class WordViewND:
         return W8(b.mem, to_z3(self.o) + 8 * pos)
 
 
+class TypedViewND:
+    """buffer.to_nplike(o, dtype, cshape) and its transposes: a typed view, C-ordered over cshape with items of w bytes; after
+    transpose the k-th axis of the view is axis axes[k] of the base (numpy).  Observed: shape, strides (bytes), the address of an element."""
+
+    def __init__(self, buf, o, w, cshape, axes):
+        self.buf, self.o, self.w, self.cshape, self.axes = buf, o, w, cshape, axes
+
+    def base_strides(self):
+        r = len(self.cshape)
+        out = []
+        for m in range(r):
+            f = self.w
+            for n in range(m + 1, r):
+                f = f * self.cshape[n]
+            out.append(f)
+        return out
+
+    def shape(self):
+        return tuple(self.cshape[a] for a in self.axes)
+
+    def strides(self):
+        bs = self.base_strides()
+        return tuple(bs[a] for a in self.axes)
+
+    def address(self, idx):
+        out = self.o
+        for i_, s_ in zip(idx, self.strides()):
+            out = out + to_z3(i_) * s_
+        return out
+
+    def has_attr(self, attr):
+        return attr in ("transpose", "shape", "strides")
+
+    def getattr(self, interp, st, attr, node):
+        if attr == "transpose":
+            def mk(i, s, a, k, n):
+                ax = a[0] if len(a) == 1 else a
+                ax = [int(x) for x in i.concrete_items(s, ax)]
+                if sorted(ax) != list(range(len(self.axes))):
+                    raise Unsupported("transpose by something that is not a permutation of the axes")
+                return TypedViewND(self.buf, self.o, self.w, self.cshape, [self.axes[x] for x in ax])
+            yield st, _M(mk)
+        elif attr == "shape":
+            yield st, self.shape()
+        elif attr == "strides":
+            yield st, self.strides()
+        else:
+            raise Unsupported(f"typed view .{attr}")
+
+
 class XBuf(_Mut):
     def __init__(self, name="buf", context=None):
         super().__init__()
@@ -265,6 +315,23 @@ class XBuf(_Mut):
         x = z3.Int(fresh_name("x"))
         st.assume(z3.ForAll([x], m[x] == me.mem[x + to_z3(o)], patterns=[m[x]]))
         return ByteStr(n, m, ("slice", me.mem, o))
+
+    def m_to_nplike(self, interp, st, a, k, node):
+        """contract of to_nplike / to_nparray (proved under C13): a typed view of the buffer's own storage at byte offset o, C-ordered over
+        `shape`, items of dtype.itemsize bytes (it aliases the buffer: the result is a description of which bytes it addresses)"""
+        me = self._me(interp, st)
+        o, dtype, shape = a
+        dims = [to_z3(x) for x in interp.concrete_items(st, shape)]
+        w = None
+        for st_, v in interp.getattr(st, dtype, "itemsize", node):
+            w = v
+        n = z3.IntVal(1)
+        for d in dims:
+            n = n * d
+        interp.oblige(st, "pre@call", "to_nplike.in_bounds", me.in_range(o, to_z3(w) * n), getattr(node, "lineno", None))
+        return TypedViewND(self, to_z3(o), to_z3(w), dims, list(range(len(dims))))
+
+    m_to_nparray = m_to_nplike
 
     def m_allocate(self, interp, st, a, k, node):
         """contract of XBuffer.allocate (proved under C04): a fresh region inside the (possibly enlarged) capacity, disjoint from
